@@ -200,6 +200,7 @@ def specs_nof(tier):
     s.append(("contracts.nof_wrappers", "unit_small_accessors", {"timeout_ms": t}))
     s.append(("contracts.nof_wrappers", "unit_applyfunc", {"timeout_ms": t}))
     s.append(("contracts.nof_wrappers", "unit_subs_doit_simplify", {"timeout_ms": t}))
+    s.append(("contracts.nof_wrappers", "unit_poly_simplify", {"timeout_ms": t}))
     from contracts.nof_from_expr import VALIDATOR_LAYOUTS as _VL
     for k in _VL:
         s.append(("contracts.nof_from_expr", "unit_validate_operators", {"layout_name": k, "timeout_ms": t}))
